@@ -128,27 +128,27 @@ impl DumpHeader {
                 b".nnodes" => header.nnodes = parse_single_usize(value, line_no)?,
                 b".nvars" => header.nvars = parse_single_u32(value, line_no)?,
                 b".nsuppvars" => nsuppvars = parse_single_u32(value, line_no)?,
-                b".varnames" => header.varnames = parse_str_list(value, header.nvars as usize),
-                b".suppvarnames" => suppvarnames = parse_str_list(value, nsuppvars as usize),
+                b".varnames" => header.varnames = parse_str_list(value, (header.nvars as usize).min(1 << 16)),
+                b".suppvarnames" => suppvarnames = parse_str_list(value, (nsuppvars as usize).min(1 << 16)),
                 b".orderedvarnames" => {
-                    orderedvarnames = parse_str_list(value, header.nvars as usize)
+                    orderedvarnames = parse_str_list(value, (header.nvars as usize).min(1 << 16))
                 }
                 b".ids" => {
-                    header.ids = parse_u32_list(value, nsuppvars as usize, line_no)?;
+                    header.ids = parse_u32_list(value, (nsuppvars as usize).min(1 << 16), line_no)?;
                 }
                 b".permids" => {
-                    header.permids = parse_u32_list(value, nsuppvars as usize, line_no)?;
+                    header.permids = parse_u32_list(value, (nsuppvars as usize).min(1 << 16), line_no)?;
                 }
                 b".auxids" => {
-                    header.auxids = parse_u32_list(value, nsuppvars as usize, line_no)?;
+                    header.auxids = parse_u32_list(value, (nsuppvars as usize).min(1 << 16), line_no)?;
                 }
                 b".nroots" => nroots = parse_single_usize(value, line_no)?,
                 b".rootids" => {
                     header.rootids.clear();
-                    header.rootids.reserve(nroots);
+                    header.rootids.reserve(nroots.min(1 << 16));
                     parse_edge_list(value, &mut header.rootids, line_no)?;
                 }
-                b".rootnames" => header.rootnames = parse_str_list(value, nroots),
+                b".rootnames" => header.rootnames = parse_str_list(value, nroots.min(1 << 16)),
                 b".nodes" => break,
                 _ => {
                     return err(format!(
@@ -578,7 +578,7 @@ where
     M::InnerNode: HasLevel,
     M::Terminal: ParseTagged<M::EdgeTag>,
 {
-    let mut nodes = EdgeVecDropGuard::new(manager, Vec::with_capacity(header.nnodes));
+    let mut nodes = EdgeVecDropGuard::new(manager, Vec::with_capacity(header.nnodes.min(1 << 16)));
     let mut line = Vec::new();
     let mut children = Vec::with_capacity(M::InnerNode::ARITY);
     for node_id in 1..=header.nnodes {
@@ -736,7 +736,7 @@ where
         Ok((id - 1) as usize)
     }
 
-    let mut nodes = EdgeVecDropGuard::new(manager, Vec::with_capacity(header.nnodes));
+    let mut nodes = EdgeVecDropGuard::new(manager, Vec::with_capacity(header.nnodes.min(1 << 16)));
     for node_id in 1..=header.nnodes {
         let node_code = read_unescape(&mut input)?;
         let var_code = Code::from((node_code >> 5) & 0b11);
